@@ -9,7 +9,8 @@ package main
 // payloads up to 200 KiB (get* only).  Transaction payload and zstd-compressed metadata payload are
 // each split by c14chain (1..60 frames, all layouts), the Transaction node is encoded with the
 // reference encoder and decoded with the repository's DecodeTransaction, the frames are served by a
-// map keyed by CID that decodes on every fetch (what Epoch.GetDataFrameByCid does after its lookup).
+// map keyed by CID that decodes with the repository's DecodeDataFrame (what Epoch.GetDataFrameByCid does after
+// its lookup; the decoded form of unfaulted frames is cached per chain).
 // Oracle: clean => exactly the original transaction bytes and the original (uncompressed) metadata;
 // one single-frame fault in either chain => error, or exactly the original pair.
 // The metadata is compressed WITHOUT the optional zstd content checksum, so that zstd does not mask
@@ -48,28 +49,6 @@ type c14SrvCase struct {
 }
 
 var c14ZstdNoCRC, _ = zstd.NewWriter(nil, zstd.WithEncoderCRC(false), zstd.WithEncoderLevel(zstd.SpeedDefault))
-
-func c14SrvGetter(stores ...*c14chain.View) func(ctx context.Context, wanted cid.Cid) (*ipldbindcode.DataFrame, error) {
-	n := 0
-	return func(ctx context.Context, wanted cid.Cid) (*ipldbindcode.DataFrame, error) {
-		n++
-		if n > 100000 {
-			return nil, fmt.Errorf("c14: fetch budget exhausted")
-		}
-		k := wanted.KeyString()
-		for _, v := range stores {
-			if v.Missing[k] {
-				return nil, fmt.Errorf("c14: frame %s is not in the archive", wanted)
-			}
-		}
-		for _, v := range stores {
-			if b, ok := v.Store[k]; ok {
-				return iplddecoders.DecodeDataFrame(b)
-			}
-		}
-		return nil, fmt.Errorf("c14: frame %s is not in the archive", wanted)
-	}
-}
 
 type c14SrvOutcome struct {
 	tx, meta []byte // what came back, normalised to bytes
@@ -112,7 +91,7 @@ func c14SrvCall(fn string, node *ipldbindcode.Transaction, get func(ctx context.
 	return
 }
 
-func c14SrvRun(rec *ev.Recorder, c c14SrvCase, dch, mch *c14chain.Chain) {
+func c14SrvRun(rec *ev.Recorder, c c14SrvCase, dch, mch *c14chain.Chain, cache c14chain.Decoded) {
 	site := "getTransactionAndMetaFromNode"
 	if c.Func == "parse" {
 		site = "parseTransactionAndMetaFromNode"
@@ -148,7 +127,8 @@ func c14SrvRun(rec *ev.Recorder, c c14SrvCase, dch, mch *c14chain.Chain) {
 		rec.Inconclusive(fmt.Sprintf("%s: transaction node could not be decoded: %v", c.Name, err))
 		return
 	}
-	o := c14SrvCall(c.Func, dec, c14SrvGetter(&dv, &mv))
+	fetched := 0
+	o := c14SrvCall(c.Func, dec, c14chain.Getter(cache, &fetched, &dv, &mv))
 	rec.Eval(1)
 	rec.Count("calls_"+c.Func+"_"+fault, 1)
 	if tgt.K >= 2 {
@@ -232,7 +212,7 @@ func TestVerifC14Server(t *testing.T) {
 		rec.Rule("replay of one case")
 		rec.Distinct("replay")
 		rec.Distinct("replay2")
-		c14SrvRun(rec, rc, c14chain.Build(rc.Data), c14chain.Build(rc.Meta))
+		c14SrvRun(rec, rc, c14chain.Build(rc.Data), c14chain.Build(rc.Meta), nil)
 		return
 	}
 	rec := ev.New("C14", "server")
@@ -296,6 +276,7 @@ func TestVerifC14Server(t *testing.T) {
 			ds.K = 1 // the production shape: single-frame transaction, split metadata
 		}
 		dch, mch := c14chain.Build(ds), c14chain.Build(ms)
+		cache := c14chain.Decoded{}
 		funcs := []string{"get"}
 		if p.parseable {
 			funcs = append(funcs, "parse")
@@ -305,7 +286,7 @@ func TestVerifC14Server(t *testing.T) {
 		}
 		for _, fn := range funcs {
 			base := c14SrvCase{Part: "server", Name: p.name, Func: fn, Data: ds, Meta: ms, MetaRaw: p.metaRaw, Target: "data"}
-			c14SrvRun(rec, base, dch, mch)
+			c14SrvRun(rec, base, dch, mch, cache)
 			for _, tg := range []string{"data", "meta"} {
 				ch := dch
 				if tg == "meta" {
@@ -323,7 +304,7 @@ func TestVerifC14Server(t *testing.T) {
 					f := f
 					fc := base
 					fc.Target, fc.Fault, fc.Other = tg, &f, &os2
-					c14SrvRun(rec, fc, dch, mch)
+					c14SrvRun(rec, fc, dch, mch, cache)
 				}
 			}
 		}
